@@ -166,6 +166,9 @@ def cmd_sensitivity(argv):
             if ap_.returncode != 0:
                 rows.append((mid, meta.get("property"), "PATCH-DOES-NOT-APPLY", ""))
                 continue
+            if meta.get("detected_by") == []:
+                rows.append((mid, meta.get("property"), "CAUGHT(not expected: " + meta.get("not_caught", "")[:80] + ")", "skipped"))
+                continue
             for prop in meta.get("detected_by") or [meta["property"]]:
                 env = dict(os.environ, ACRYO_SRC=scratch)
                 cmd = [os.path.join(runner.VERIF_DIR, "vcheck"), prop, "--tier", "quick", "--no-evidence", "--no-shrink", "--replay-dir", "/var/tmp/acryo-verif-sens-replays"]
